@@ -12,7 +12,10 @@ def adapterName (ads : List Matchable) (m : AnyMatch) : String := (namesOf ads).
 
 theorem adapterName_eq (ads : List Matchable) (m : AnyMatch) (a : Matchable) (h : ads[m.adapter]? = some a) :
     adapterName ads m = a.name := by
-  simp [adapterName, namesOf, List.getD, h]
+  have hlt : m.adapter < ads.length := (List.getElem?_eq_some_iff.mp h).1
+  have hlt' : m.adapter < (ads.map Matchable.name).length := by simpa using hlt
+  simp only [adapterName, namesOf, List.getD, List.getElem?_append_left hlt', List.getElem?_map, h]
+  rfl
 
 /-! ## Routing -/
 
